@@ -24,16 +24,24 @@ Record case := {
 (* SequenceID columns whose parse from an EMPTY buffer raises at /repo HEAD (string_array of a 0x0 matrix);
    one-line switch: `:= []` once notes/C05.fix-2.diff is applied *)
 Definition sid_fields (l : list nat) : list nat := [].
+(* "##fileformat=VCFv4.1\n#CHROM\tPOS\tID\tREF\tALT\tQUAL\tFILTER\tINFO\tFORMAT\n" (VCFBuffer.make_header without context) *)
+Definition vcf_default_header : list Z :=
+  [35; 35; 102; 105; 108; 101; 102; 111; 114; 109; 97; 116; 61; 86; 67; 70; 118; 52; 46; 49; 10; 35; 67; 72; 82; 79; 77; 9; 80; 79; 83; 9; 73; 68; 9; 82; 69; 70; 9; 65; 76; 84; 9; 81; 85; 65; 76; 9; 70; 73; 76; 84; 69; 82; 9; 73; 78; 70; 79; 9; 70; 79; 82; 77; 65; 84; 10].
+(* 0 bed3, 1 bed6, 2 fastq, 3 two-line fasta, 4 vcf, 5 sam, 6 bam (read-only: field texts are the canonical texts of
+   the decoded values, r_raw the binary record) *)
 Definition fmt_of (tag : Z) : fmt :=
   match tag with
-  | 0 => {| f_kinds := [KStr; KInt 0; KInt 0]; f_layout := LDelim; f_concat := true; f_nowrite := []; f_sid := sid_fields [0%nat] |}
-  | 1 => {| f_kinds := [KStr; KInt 0; KInt 0; KStr; KInt 0; KStr]; f_layout := LDelim; f_concat := true; f_nowrite := []; f_sid := sid_fields [0%nat; 3%nat] |}
-  | 2 => {| f_kinds := [KStr; KStr; KStr]; f_layout := LFastq; f_concat := false; f_nowrite := [2%nat]; f_sid := sid_fields [] |}
-  | 3 => {| f_kinds := [KStr; KStr]; f_layout := LFasta2; f_concat := false; f_nowrite := []; f_sid := sid_fields [] |}
+  | 6 => {| f_kinds := [KStr; KStr; KInt 0; KInt 0; KInt 0; KStr; KStr; KStr; KStr]; f_layout := LDelim; f_concat := false;
+            f_nowrite := []; f_ragged := false (* t[i] sometimes works on a lazily read BAM table: left to the tolerance *);
+            f_eager_write_fails := false; f_default_hdr := []; f_sid := [] |}
+  | 0 => {| f_kinds := [KStr; KInt 0; KInt 0]; f_layout := LDelim; f_concat := true; f_nowrite := []; f_ragged := false; f_eager_write_fails := false; f_default_hdr := []; f_sid := sid_fields [0%nat] |}
+  | 1 => {| f_kinds := [KStr; KInt 0; KInt 0; KStr; KInt 0; KStr]; f_layout := LDelim; f_concat := true; f_nowrite := []; f_ragged := false; f_eager_write_fails := false; f_default_hdr := []; f_sid := sid_fields [0%nat; 3%nat] |}
+  | 2 => {| f_kinds := [KStr; KStr; KStr]; f_layout := LFastq; f_concat := false; f_nowrite := [2%nat]; f_ragged := true; f_eager_write_fails := false; f_default_hdr := []; f_sid := sid_fields [] |}
+  | 3 => {| f_kinds := [KStr; KStr]; f_layout := LFasta2; f_concat := false; f_nowrite := []; f_ragged := true; f_eager_write_fails := false; f_default_hdr := []; f_sid := sid_fields [] |}
   | 4 => {| f_kinds := [KStr; KInt (-1); KStr; KStr; KStr; KStr; KStr; KStr]; f_layout := LDelim; f_concat := true;
-            f_nowrite := []; f_sid := sid_fields [0%nat] |}
+            f_nowrite := []; f_ragged := true; f_eager_write_fails := true; f_default_hdr := vcf_default_header; f_sid := sid_fields [0%nat] |}
   | _ => {| f_kinds := [KStr; KInt 0; KStr; KInt 0; KInt 0; KStr; KStr; KInt 0; KInt 0; KStr; KStr; KStr];
-            f_layout := LSam; f_concat := true; f_nowrite := []; f_sid := sid_fields [0%nat; 2%nat] |}
+            f_layout := LSam; f_concat := true; f_nowrite := []; f_ragged := true; f_eager_write_fails := false; f_default_hdr := []; f_sid := sid_fields [0%nat; 2%nat] |}
   end.
 (* formats with a ragged `str` column: row access t[i] goes through npstructures' RaggedView2._get_row, which
    raises under NumPy 2 — the model says what the code intends (the row); an error is tolerated there *)
@@ -75,15 +83,23 @@ Fixpoint zip_all {A B} (f : A -> B -> bool) (a : list A) (b : list B) : bool :=
   | _, _ => false
   end.
 
-Definition model_ok (c : case) : bool :=
+(* model says a row, the implementation raised: tolerated for t[i] on a MATERIALISED table of a format with ragged
+   columns (the row access works only once npstructures has made the column contiguous); a lazily read table of such
+   a format is modelled exactly (always raises) *)
+Definition tol (c : case) (m o : obs) : bool :=
+  obs_eqb m o || (ragged_of (k_fmt c) && match m, o with XRow _, XErr => true | _, _ => false end).
+Definition lazy_ok (c : case) : bool :=
   let F := fmt_of (k_fmt c) in
   match init_regs F c with
   | None => false
-  | Some regs =>
-      zip_all (fun m o => obs_eqb m o
-                          || (ragged_of (k_fmt c) && match m, o with XRow _, XErr => true | _, _ => false end))
-              (m_run l_concat_cur F (k_header c) regs (k_prog c)) (k_lazy c)
+  | Some regs => zip_all (tol c) (m_run l_concat_cur F (k_header c) regs (k_prog c)) (k_lazy c)
   end.
+(* the eager run is the eager implementation model: the Spec's rows, header context lost on derived tables *)
+Definition eager_ok (c : case) : bool :=
+  let F := fmt_of (k_fmt c) in
+  let t0 := (rows_of_file F (k_recs c), negb (k_chunked c)) in
+  zip_all (tol c) (e_run F (k_header c) [t0; t0] (k_prog c)) (k_eager c).
+Definition model_ok (c : case) : bool := lazy_ok c && eager_ok c.
 
 Definition file_ok (c : case) : bool :=
   zlist_eqb (k_file c) (k_header c ++ concat (map r_raw (k_recs c))).
